@@ -70,6 +70,11 @@ Section WithMac.
   (* both honest, connected to each other; a = listener, b = client *)
   Definition handshake (fuel : nat) (kl kc : keyval) (ul uc : Z -> bytes) :=
     run2 fuel (listener kl ul) (client kc uc) [] [] [] [].
+
+  (* the same two endpoints over a channel whose sends may fail (fl: the listener's
+     send oracle, fc: the client's) *)
+  Definition handshake_f (fuel : nat) (kl kc : keyval) (ul uc : Z -> bytes) (fl fc : faults) :=
+    run2f fuel (listener kl ul) (client kc uc) [] [] [] [] fl fc 0 0.
 End WithMac.
 
 (* ------------------------------------------------------------------ *)
@@ -84,11 +89,18 @@ Definition obs_eqb (a b : obs) : bool :=
 Inductive scenario :=
 | Honest (kl kc : keyval) (cl cc : bytes)            (* listener and client, their challenge bytes *)
 | VsPeerL (kl : keyval) (cl : bytes) (script : list bytes)   (* honest listener, scripted peer *)
-| VsPeerC (kc : keyval) (cc : bytes) (script : list bytes).  (* honest client, scripted peer *)
+| VsPeerC (kc : keyval) (cc : bytes) (script : list bytes)   (* honest client, scripted peer *)
+(* the same with channel faults: per side the result of each send_bytes call in order
+   (None = delivered, Some e = raised e; calls beyond the list are delivered); a
+   scripted peer's list says for each recv_bytes call: a message or an error *)
+| HonestF (kl kc : keyval) (cl cc : bytes) (fl fc : list (option exn))
+| VsPeerLF (kl : keyval) (cl : bytes) (script : list rev) (fl : list (option exn))
+| VsPeerCF (kc : keyval) (cc : bytes) (script : list rev) (fc : list (option exn)).
 
 (* a case: the scenario, the digest table computed by the real hmac, the number n
    the implementation passed to os.urandom (per side, None = not called), and the
-   observations of the implementation (listener side, client side) *)
+   observations of the implementation (listener side, client side): how it ended and
+   the messages it sent (under faults: the messages whose send_bytes call succeeded) *)
 Definition case :=
   (scenario * mac_table * (option Z * option Z) * (option obs * option obs))%type.
 
@@ -107,6 +119,13 @@ Definition model_obs (s : scenario) (t : mac_table) : option obs * option obs :=
       let (s, o) := run1 (listener mac kl (urandom_of cl)) script in (Some (o, s), None)
   | VsPeerC kc cc script =>
       let (s, o) := run1 (client mac kc (urandom_of cc)) script in (None, Some (o, s))
+  | HonestF kl kc cl cc fl fc =>
+      let '(a, b) := handshake_f mac 64 kl kc (urandom_of cl) (urandom_of cc)
+                                 (faults_of fl) (faults_of fc) in (Some a, Some b)
+  | VsPeerLF kl cl script fl =>
+      let (s, o) := run1f (listener mac kl (urandom_of cl)) script (faults_of fl) 0 in (Some (o, s), None)
+  | VsPeerCF kc cc script fc =>
+      let (s, o) := run1f (client mac kc (urandom_of cc)) script (faults_of fc) 0 in (None, Some (o, s))
   end.
 
 (* does the model draw a challenge on this side?  (then the implementation
